@@ -75,6 +75,8 @@ impl<T> HybridMutex<T> {
 
   #[inline]
   pub fn lock(&self) -> MutexGuard<'_, T> {
+    #[cfg(excsn_fibre_verif)]
+    crate::verif_lock_hook::acquire(self as *const _ as usize, "l");
     if self.try_acquire() {
       return MutexGuard { lock: self };
     }
@@ -143,6 +145,8 @@ impl<T> HybridMutex<T> {
 
   #[inline]
   pub async fn lock_async(&self) -> MutexGuard<'_, T> {
+    #[cfg(excsn_fibre_verif)]
+    crate::verif_lock_hook::acquire(self as *const _ as usize, "la");
     if self.try_acquire() {
       return MutexGuard { lock: self };
     }
@@ -155,6 +159,8 @@ impl<T> HybridMutex<T> {
   }
 
   pub fn try_lock(&self) -> Option<MutexGuard<'_, T>> {
+    #[cfg(excsn_fibre_verif)]
+    crate::verif_lock_hook::acquire(self as *const _ as usize, "tl");
     if self.try_acquire() {
       Some(MutexGuard { lock: self })
     } else {
